@@ -285,12 +285,22 @@ def rand_val(rng, text_p=0.35):
         s = rand_text(rng, allow_colon=True, allow_empty=False)
         return Val.text_(s)
     if r < text_p + 0.2:
-        return Val.int_(rng.choice([rng.randrange(-50, 500), rng.randrange(-10 ** 6, 10 ** 9), 0, 1]))
+        i = rng.choice([rng.randrange(-50, 500), rng.randrange(-10 ** 6, 10 ** 9), 0, 1])
+        v = Val.int_(i)
+        if i >= 0 and rng.random() < 0.12 and hasattr(v, 'text'):
+            v.text = '+' + v.text               # an explicit plus sign is still an integer
+        return v
     if r < text_p + 0.42:
         m, d = rand_decimal(rng)
         d = max(d, 1)
         style = rng.random()
         text = dec_text(m, d) if style < 0.8 else exp_text(m, d, upper=rng.random() < 0.7, plus=rng.random() < 0.7)
+        # other spellings of the same number: explicit plus sign, no digit before the point
+        k = rng.random()
+        if k < 0.1 and m >= 0:
+            text = '+' + text
+        elif k < 0.22 and style < 0.8 and (text.startswith('0.') or text.startswith('-0.')):
+            text = text.replace('0.', '.', 1)
         return Val.float_(m, d, text)
     if r < text_p + 0.52:
         b = rng.random() < 0.5
